@@ -69,24 +69,24 @@ P = {
 
 # as-built additions (rounds 8-15 of seeded changes; DESIGN.md section 8)
 ADD = {
- "C01": " Plus, per table: explicit sweep programs (every size of every variable-size entry over a contiguous range, continuation / identical / overlapping / descending argument chains, strings with blank / NUL heads and tails, foreign handles, setters overwritten with other values), a byte-sum sweep (one argument per entry kind through all 256 low-byte values), every argument all-zero / all-ones beside ordinary neighbours, the value sweep (every numeric or byte-array argument of every entry kind, shape and constructor through util::value_set x the enumerated arguments; argument pairs equal / adjacent / doubled and over a 12-value special set; argument = entry position / table length / entry size / previous argument +-1; one special value in three entries), and a second DFS over one operation per kind to depth 4..16.",
+ "C01": " Plus, per table: explicit sweep programs (every size of every variable-size entry over a contiguous range, continuation / identical / overlapping / descending argument chains, strings with blank / NUL heads and tails, foreign handles, setters overwritten with other values), a byte-sum sweep (one argument per entry kind through all 256 low-byte values), every argument all-zero / all-ones beside ordinary neighbours, the value sweep (every numeric or byte-array argument of every entry kind, shape and constructor through util::value_set x the enumerated arguments; argument pairs equal / adjacent / doubled and over a 12-value special set; argument = entry position / table length / entry size / previous argument +-1; one special value in three entries), and a second DFS over one operation per kind to depth 4..16. The generic Sdt's alphabet includes the caller writing Length = current length + d (d in 0,1,2,3,8) ahead of an append.",
  "C02": " The sweep programs (incl. RQSC vendor identifier blobs of every length 0..40, also shorter than the 12 bytes of the fixed identifier fields) and single HMAT structures of 65 532 .. 180 000 bytes, byte-sum sweep, value sweep and kind-level DFS of C01 are judged here too.",
  "C03": " The sweep programs, byte-sum sweep, value sweep and kind-level DFS of C01 are judged here too.",
  "C04": " The entry layer also uses all-arguments-equal, lower-case-letter and blank fills; the stand-alone structures (PCI-config GAS, typed GenericAddress, HEST error status block and data entry) are compared with their specification layouts; the sweep programs and the value sweep of C01 are judged here too.",
  "C05": " The sweep programs of C01 (sizes, strings, overwritten next_level, foreign parent), its value sweep, and programs that grow the table past 64 KiB and then add a node and references to that very node (RIMT, RHCT, PPTT) are judged here too.",
- "C06": " Plus every sequence of <=3 (thorough 4) field entries over named/reserved x 8 widths, long runs of one width up to 2^28-1 bits x 1..40 / 255..257 / 4095..4097 entries, and resource templates whose last / first / only descriptor ends in every byte pair.",
+ "C06": " Plus every sequence of <=3 (thorough 4) field entries over named/reserved x 8 widths, long runs of one width up to 2^28-1 bits x 1..40 / 255..257 / 4095..4097 entries, and resource templates whose last / first / only descriptor ends in every byte pair. Every node is serialised twice (the passes must agree) and every program containing a PackageBuilder is re-run with builders obtained through Default and core::mem::take.",
  "C07": " Plus every call site with every name form (1, 2, 3, 10 segments, rooted or not) and a directly-written 64-bit child, every container with 0..=300 and up to 65 537 small children, every container with a child whose last two / first two bytes run over all 65 536 pairs, and the field-entry sequences and long runs of C06.",
- "C08": " Plus every combination of {00,01,80,ff} over the 8 bytes, every (high, low) dword pair over 22 values, ResourceTemplate children of every total size 0..70000, and an integer of every width at every offset (0..250 one-byte children, or one child of 0..300 / ~4096 / ~65536 bytes in front) inside every container.",
+ "C08": " Plus every combination of {00,01,80,ff} over the 8 bytes, every (high, low) dword pair over 22 values, ResourceTemplate children of every total size 0..70000, and an integer of every width at every offset (0..250 one-byte children, or one child of 0..300 / ~4096 / ~65536 bytes in front) inside every container. And 118 class-boundary values x 5 carriers through each of 33 single-operand slots (BufferTerm, VarPackageTerm, Name, OpRegion, If/While predicates, Store, Notify, operators, CreateField, Mid, MethodCall), judged differentially and by length/containment against the object with an empty operand.",
  "C09": " Plus every string over {name character, dot} up to 14 and over {name character, dot, backslash} up to 10 characters, well-formed paths with blank / tab / newline / NUL at their edges, and every one of the 1 367 631 four-character segments as single name (relative and rooted) and as first / last / middle segment, and a dictionary of 1 390 predefined ACPI names under every predefined scope and paired with each other.",
- "C10": " Plus value sweeps: Register over 13 spaces x every width x offsets x every access size, IO over every alignment x length, value-set minima x 5-6 maxima for every address-space kind with and without translation.",
+ "C10": " Plus value sweeps: Register over 13 spaces x every width x offsets x every access size, IO over every alignment x length, value-set minima x 5-6 maxima for every address-space kind with and without translation. Every descriptor and template is serialised twice and the passes must agree.",
  "C11": " Plus the value sweep of C01 over every option-bearing entry (every shape, every numeric argument through util::value_set x the enumerated arguments; argument pairs x the enumerated arguments), the CFMWS closure for every interleave-ways value x arithmetic and the TCPA closure for four address spaces of its address arguments.",
- "C12": " Plus every HMAT shape of a 34x34 (thorough 64x64) grid and every SLIT size 1..40 (100) and 128..400 with every cell assigned in three orders, and every locality type x data type x transfer size with untouched cells, all 65 536 cell values in six program forms on three shapes, all 256 x 256 SLIT distance pairs, the large shapes with one and the same value in every cell, and every closure transition also run with the structure serialised after every operation.",
+ "C12": " Plus every HMAT shape of a 34x34 (thorough 64x64) grid and every SLIT size 1..40 (100) and 128..400 with every cell assigned in three orders, and every locality type x data type x transfer size with untouched cells, all 65 536 cell values in six program forms on three shapes, all 256 x 256 SLIT distance pairs, the large shapes with one and the same value in every cell, and every closure transition also run with the structure serialised after every operation. In that observed run the structure is added as the second locality of an HMAT that already holds one, and the table's byte sum, Length and the structure's position are judged.",
  "C13": " Plus state-relative writes (Length := current length + k, a copied header), update_checksum, generic write/append of GenericAddress, and lockstep programs on large tables (slices of every size to 1100 and around 4 KiB / 64 KiB, every initial length 36..1100, byte-by-byte growth to 5000 bytes), every typed append / sink / write with its value over util::value_set, and all 80 ACPI table signatures as constructor signature and written in place.",
  "C14": " Plus the stand-alone structures and fills of lower-case letters / blanks in the raw-form comparison, every public field of Rsdp / FACS / GAS set after construction, and the PackageBuilder sink in three origins (new, Default, left by mem::take).",
  "C15": " Plus strings with NUL / blank / quote / non-ASCII characters at either end, and PackageBuilder values obtained through Default and reused after core::mem::take; every character U+0000..U+07FF at the head, tail, inside of a string and every ASCII head pair, owned against borrowed; Scope::raw for every body size 0..70000 x spare capacity {0,1,7,64,4096}.",
  "C16": " Plus every placement of four dashes among 36 positions, every pair of positions over 6 characters, identifier + suffix / prefix, and lower-case EISA digits (accepted only if they encode the same identifier), and every character U+0000..U+07FF at every position of three UUIDs and every digit position of three EISA ids, and all 65 536 values shared by two or three UUID groups.",
  "C17": " Plus slices of 6..300000 bytes in 6 patterns, sub-slices at start offsets 0..16 for every length 0..1100, runs of 0..300 equal bytes inside slices, every word, and dwords / qwords over util::value_set from every state (thorough: all 2^32 dwords).",
- "C18": " Plus limits reached by the sum of two parts (RIMT platform name x mappings, RQSC vendor resource x cache resources) for every residue of the first part, and every unrepresentable address range combined with translations related to its ends, and every Method argument count 0..255 with both values of serialized.",
+ "C18": " Plus limits reached by the sum of two parts (RIMT platform name x mappings, RQSC vendor resource x cache resources) for every residue of the first part, and every unrepresentable address range combined with translations related to its ends, and every Method argument count 0..255 with both values of serialized. Every count-limited element (HMAT side cache, CEDT CXIMS, PPTT processor node, RIMT IOMMU / root complex / platform, RHCT ISA string) is also serialised on its own, framed into the image add_* would produce and judged by the table walker.",
 }
 
 NOT_YET = "check not built yet in this revision of /verif (model-checking design in DESIGN.md section 4); listed here so that no unbuilt check is claimed"
